@@ -451,6 +451,12 @@ def r2_required_attributes(ctx):
                 if not any(c.pol and _hasattr_key(c.text) ==
                            "compute_ancillaries" for c in conds):
                     flag_ok = False
+            elif _hasattr_key(norm(n.value)) == "compute_ancillaries" or (
+                    isinstance(n.value, ast.Call) and norm(
+                        n.value.func) == "bool" and len(
+                        n.value.args) == 1 and _hasattr_key(norm(
+                            n.value.args[0])) == "compute_ancillaries"):
+                pass    # the flag is the hasattr() result itself
             elif not (isinstance(n.value, ast.Constant)
                       and n.value.value is False):
                 flag_ok = False
